@@ -247,7 +247,7 @@ func (h *WorkloadResourceAllocatedHandler) Handle(ctx context.Context, raw any) 
 		node := node
 		_ = h.pool.Invoke(func() {
 			defer wg.Done()
-			if _, err = h.calcium.NodeResource(ctx, node.Name, true); err != nil {
+			if _, err := h.calcium.NodeResource(ctx, node.Name, true); err != nil {
 				logger.Errorf(ctx, err, "failed to fix node resource: %s", node.Name)
 				return
 			}
